@@ -723,7 +723,8 @@ theorem c07_shape_Overlay_TransmitMsg :
    ["treeStorage.getAndRefresh", "verifPoint:tm.miss", "o.requestTree", "verifPoint:tm.found",
      "transmitMux.Lock", "defer:transmitMux.Unlock", "instancesLock.Lock", "To.ID", "To.ID",
      "o.cleanTreeStorage", "instancesLock.Unlock", "o.TreeNodeFromTree",
-     "o.newTreeNodeInstanceFromToken", "treeStorage.Set", "To.ID", "o.getConfig",
+     "o.newTreeNodeInstanceFromToken", "treeStorage.Set", "o.hasPendingMsg",
+     "o.checkPendingMessages", "To.ID", "o.getConfig",
      "serviceManager.newProtocol", "instancesLock.Lock", "o.nodeDelete", "instancesLock.Unlock",
      "go{", "defer{", "tni.Token", "ServiceFactory.Name", "}", "pi.Dispatch", "tni.Token",
      "ServiceFactory.Name", "}", "o.RegisterProtocolInstance", "pi.ProcessProtocolMsg"] := rfl
